@@ -39,4 +39,40 @@ def run (w : Nat) (c : Nat → Nat) : List Op → List (List Nat)
   | [] => []
   | op :: rest => let r := step w c op; r.2 :: run w r.1 rest
 
+/-! ## the counter array of a key with a lifetime
+
+The ideal object for a bit-field key in a TTL store, with *eager* expiry: the array exists
+(`live`) from its first increment until it is deleted or its deadline passes; at that instant it
+is the never-written array again (all counters 0, no deadline) — whether or not anything looked at
+the key in between. -/
+
+structure TCounters where
+  now  : Nat
+  c    : Nat → Nat
+  dl   : Option Nat
+  live : Bool
+
+def fresh (now : Nat) : TCounters := ⟨now, init, none, false⟩
+
+open CashewsVerif.Bits (TOp b2l)
+
+def tstep (w : Nat) (t : TCounters) : TOp → TCounters × List Nat
+  | .getBits idxs => (t, getMany t.c idxs)
+  | .incrBits idxs by_ =>
+    let r := incrMany t.c w idxs by_
+    ({ t with c := r.1, live := true }, r.2)
+  | .expire ttl =>
+    (if t.live && ttl != 0 then { t with dl := some (t.now + ttl) } else t, [])
+  | .delete => (fresh t.now, b2l t.live)
+  | .touch => (t, b2l t.live)
+  | .adv dt =>
+    let now' := t.now + dt
+    match t.dl with
+    | none => ({ t with now := now' }, [])
+    | some d => (if d ≤ now' then fresh now' else { t with now := now' }, [])
+
+def trun (w : Nat) (t : TCounters) : List TOp → List (List Nat)
+  | [] => []
+  | op :: rest => let r := tstep w t op; r.2 :: trun w r.1 rest
+
 end CashewsVerif.Counters
